@@ -1,6 +1,7 @@
 import LeptosModel.Model.Reactive
 import LeptosModel.Proofs.ReactiveTopEff
 import LeptosModel.Proofs.ReactiveJust
+import LeptosModel.Proofs.ReactiveReach
 /-!
 # C01 — derived values equal a from-scratch recomputation
 
@@ -107,5 +108,26 @@ example :
     (step p (run p [.read 2, .set 1 5]) (.read 2)).2 = some 0 ∧
     specVal p (run p [.read 2, .set 1 5]) 2 = 5 ∧
     (step p (run p [.read 2, .set 1 5, .set 0 1]) (.read 2)).2 = some 6 := by decide +kernel
+
+/-- **untracked reads are inert** (ghost-free reading of "the snapshot is the value at the last run"):
+after a read of memo `m`, a write to a signal `sg` that is not among the transitive TRACKED sources
+recorded by the last runs (`trackedDep s p.length m sg = false`, `Proofs/ReactiveReach.lean`: `sg` was read
+by `m`'s dependency cone only untracked, or not at all) does not change what `read m` returns — the memo is
+not even marked.  All WF programs (effects, untracked reads). -/
+theorem C01_untracked_inert :
+    ∀ (p : Prog) (ops : List Op) (m sg : Nat) (b : Expr) (v0 v : Int), WF p = true →
+      p[m]? = some (.memo b) → p[sg]? = some (.sig v0) →
+      trackedDep (step p (run p ops) (.read m)).1 p.length m sg = false →
+      (step p (step p (step p (run p ops) (.read m)).1 (.set sg v)).1 (.read m)).2 =
+        (step p (run p ops) (.read m)).2 :=
+  fun _ ops m sg b v0 v hwf hb hsg hdep => set_inert hwf ops m sg b v0 v hb hsg hdep
+
+/-- sanity: `m = s0 + untrack(s1)`: `s1` is not a tracked dependency, `s0` is -/
+example :
+    let p : Prog := [.sig 0, .sig 0, .memo (.add (.rd true 0) (.rd false 1))]
+    trackedDep (step p (run p []) (.read 2)).1 p.length 2 1 = false ∧
+    trackedDep (step p (run p []) (.read 2)).1 p.length 2 0 = true ∧
+    (step p (step p (step p (run p []) (.read 2)).1 (.set 1 7)).1 (.read 2)).2 = some 0 := by
+  decide +kernel
 
 end Leptos.Reactive
